@@ -155,8 +155,11 @@ pub fn union_cases<P: Proto, const CASE: u8>() {
             rt::bin_binary(&mut o, b"ab", le);
         }
         _ => {
+            // id 1 carries a one-byte string whose content is 0x00: a decoder that ignores the
+            // wire type reads the length prefix as the i32 variant and then takes the payload
+            // byte for the struct's stop
             rt::bin_field(&mut o, rt::bt::BINARY, 1, le);
-            rt::bin_binary(&mut o, b"ab", le);
+            rt::bin_binary(&mut o, &[0u8], le);
         }
     }
     o.put(0);
